@@ -129,6 +129,10 @@ mod capx {
             }
             if kind >= 2 {
                 macro_rules! drive_op { ($vv:ident, $op:expr) => {{ match *$op {
+                    // absurd sizes: every second one goes through the PANICKING method inside catch_unwind (a capacity
+                    // overflow unwinds; the vector is used again afterwards) — the same failure, the same atomicity
+                    VOp::Reserve(n) if n >= usize::MAX - 64 && n % 2 == 1 => { let l = $vv.len(); (std::panic::catch_unwind(std::panic::AssertUnwindSafe(|| $vv.reserve(n))).is_ok(), l) }
+                    VOp::ReserveExact(n) if n >= usize::MAX - 64 && n % 2 == 1 => { let l = $vv.len(); (std::panic::catch_unwind(std::panic::AssertUnwindSafe(|| $vv.reserve_exact(n))).is_ok(), l) }
                     VOp::Reserve(n) => { let l = $vv.len(); ($vv.try_reserve(n).is_ok(), l) }
                     VOp::ReserveExact(n) => { let l = $vv.len(); ($vv.try_reserve_exact(n).is_ok(), l) }
                     VOp::Push => { let l = $vv.len(); ($vv.try_push(zero).is_ok(), l) }
@@ -152,6 +156,10 @@ mod capx {
             } else {
                 let mut v: BumpVec<$t, &$bt> = BumpVec::with_capacity_in($init, &bump);
                 macro_rules! drive_op { ($vv:ident, $op:expr) => {{ match *$op {
+                    // absurd sizes: every second one goes through the PANICKING method inside catch_unwind (a capacity
+                    // overflow unwinds; the vector is used again afterwards) — the same failure, the same atomicity
+                    VOp::Reserve(n) if n >= usize::MAX - 64 && n % 2 == 1 => { let l = $vv.len(); (std::panic::catch_unwind(std::panic::AssertUnwindSafe(|| $vv.reserve(n))).is_ok(), l) }
+                    VOp::ReserveExact(n) if n >= usize::MAX - 64 && n % 2 == 1 => { let l = $vv.len(); (std::panic::catch_unwind(std::panic::AssertUnwindSafe(|| $vv.reserve_exact(n))).is_ok(), l) }
                     VOp::Reserve(n) => { let l = $vv.len(); ($vv.try_reserve(n).is_ok(), l) }
                     VOp::ReserveExact(n) => { let l = $vv.len(); ($vv.try_reserve_exact(n).is_ok(), l) }
                     VOp::Push => { let l = $vv.len(); ($vv.try_push(zero).is_ok(), l) }
